@@ -222,6 +222,10 @@ def execute(case, mode):
         outcome = 'budget'
     except bct.BCTParamError as e:
         outcome, exc = 'rejected', e
+        if 'nfinite' in str(e):
+            # "Modularity infinite loop style X, please contact the developer": not a rejection of the input but the routine's
+            # own loop guard giving up on a network of its documented domain - it does not return what C02/C07 promise
+            outcome = 'loop_guard'
     except rewire.INTERNAL_ERRORS as e:
         outcome, exc = 'crash', e
     finally:
@@ -276,8 +280,11 @@ def execute(case, mode):
     elif outcome == 'crash':
         cls = 'crash:' + type(exc).__name__
         msg = '%s raised %s: %s' % (routine, type(exc).__name__, str(exc)[:200])
-        facts['C02'].append((cls, msg))
-        facts['C07'].append((cls, msg))
+        facts['C02'].append((cls, msg))  # C02 promises a returned (partition, q); C07 only constrains what is returned
+    elif outcome == 'loop_guard':
+        msg = '%s gave up on a valid network: %s' % (routine, str(exc)[:120])
+        facts['C02'].append(('loop_guard', msg))
+        outcome = 'crash'
     res = {'routine': routine, 'outcome': outcome, 'facts': facts, 'ndraws': rng.ndraws, 'forced': rng._st.forced, 'fired': rng.fired(),
            'trace': rng.trace(), 'digest': rng.digest(), 'probes': {}, 'extra': {}, 'states': mon.parts}
     res['nontrivial'] = (mon.moves > 0) if env.HOOKS is not None else rng.ndraws > 0
@@ -410,6 +417,18 @@ def gen_case(sub, routines, scn_id, nmax=12):
             # start from ANOTHER optimiser's output for the same network and gamma: a local optimum of the true
             # objective, where a single wrong move lowers Q
             cross = rnd.choice(CROSS[kind])
+    x = rnd.random()
+    if p.get('B') == 'potts':
+        pass  # the Potts objective requires a 0/1 matrix
+    elif x < 0.06 and weighted is not None:
+        # units: modularity is scale-free, the routines' absolute thresholds (1e-10 gains, allclose tests) are not
+        W = W * rnd.choice((1e-9, 1e-6, 1e-3, 1e3, 1e6))
+        weighted = 'float'
+    elif x < 0.10 and kind == 'dir':
+        # a directed network that is symmetric up to a relative 1e-7 (rounded reciprocal estimates)
+        S = (W + W.T) / 2
+        W = S * (1 + 1e-7 * np.array([[rnd.uniform(-1, 1) for _ in range(n)] for _ in range(n)]))
+        weighted = 'float'
     r = rnd.random()
     meta_f32 = False
     if weighted != 'float' and r < 0.12:
